@@ -237,10 +237,51 @@ Record lgh := mkL {
 
 Definition lnames (rs : resp) : list nat := match rs with SNames (Some l) => l | _ => [] end.
 
+(* every table of [m] is of hash type [hh] (what [same_hash] checks) *)
+Definition mh (hh : bool) (m : mem) : Prop := forall x, In x m -> tf_hash (snd x) = hh.
+
+Lemma same_hash_mh : forall hh m, same_hash hh m = true <-> mh hh m.
+Proof.
+  intros hh m. unfold same_hash, mh. rewrite forallb_forall. split; intros H x Hx.
+  - apply eqb_prop. apply H. exact Hx.
+  - rewrite (H x Hx). apply eqb_reflx.
+Qed.
+
+Lemma mh_nil : forall hh, mh hh [].
+Proof. intros hh x []. Qed.
+
+Lemma mh_incl : forall hh (a b : mem), incl a b -> mh hh b -> mh hh a.
+Proof. intros hh a b Hi Hb x Hx. apply Hb. apply Hi. exact Hx. Qed.
+
+(* a property of every result a program can return, whatever the directory answers *)
+Fixpoint leaves {A} (p : prog A) (P : A -> Prop) : Prop :=
+  match p with Ret a => P a | Op q k => forall rs, leaves (k rs) P end.
+
+Lemma leaves_bind : forall A B (p : prog A) (f : A -> prog B) P,
+  (forall a, leaves (f a) P) -> leaves (pbind p f) P.
+Proof.
+  induction p as [a|q k IH]; intros f P H; cbn [pbind leaves]; [apply H|]. intro rs. apply IH. exact H.
+Qed.
+
+Lemma leaves_bind2 : forall A B (p : prog A) (f : A -> prog B) (Q : A -> Prop) P,
+  leaves p Q -> (forall a, Q a -> leaves (f a) P) -> leaves (pbind p f) P.
+Proof.
+  induction p as [a|q k IH]; intros f Q P Hp H; cbn [pbind leaves] in *; [apply H; exact Hp|].
+  intro rs. eapply IH; eauto.
+Qed.
+
+Lemma leaves_conseq : forall A (p : prog A) (P P' : A -> Prop),
+  leaves p P -> (forall a, P a -> P' a) -> leaves p P'.
+Proof.
+  induction p as [a|q k IH]; intros P P' H HP; cbn [leaves] in *; [apply HP; exact H|].
+  intro rs. eapply IH; eauto.
+Qed.
+
 Definition commit_add (lg : lgh) (names : list nat) : Prop :=
   exists tx m n f, pd lg = Some tx /\ vw lg = Some (mnames m) /\ incl m (kn lg) /\
     fr lg = [n] /\ In (n, f) (kn lg) /\
     tf_min f = next_index m /\ tf_max f = next_index m /\ tf_txs f = [tx] /\
+    mh (tf_hash f) m /\
     names = mnames m ++ [n].
 
 Definition commit_cmp (lg : lgh) (names : list nat) : Prop :=
@@ -248,6 +289,7 @@ Definition commit_cmp (lg : lgh) (names : list nat) : Prop :=
     incl sub (kn lg) /\ sub <> [] /\ fr lg = [n] /\ In (n, f) (kn lg) /\
     tf_min f = (match sub with (_, g) :: _ => tf_min g | [] => 0%N end) /\
     tf_max f = last_max sub /\ tf_txs f = flat_map (fun x => tf_txs (snd x)) sub /\
+    mh (tf_hash f) sub /\
     names = pre ++ [n] ++ post.
 
 (* the commit of a two-table addition: the second table holds no transaction *)
@@ -256,6 +298,7 @@ Definition commit_add2 (lg : lgh) (names : list nat) : Prop :=
     fr lg = [n2; n1] /\ n1 <> n2 /\ In (n1, f1) (kn lg) /\ In (n2, f2) (kn lg) /\
     tf_min f1 = next_index m /\ tf_max f1 = next_index m /\ tf_txs f1 = [tx] /\
     tf_min f2 = (next_index m + 1)%N /\ tf_max f2 = (next_index m + 1)%N /\ tf_txs f2 = [] /\
+    mh (tf_hash f1) m /\ tf_hash f2 = tf_hash f1 /\
     names = mnames m ++ [n1; n2].
 
 Definition rmv (n : nat) (l : list nat) : list nat := filter (fun x => negb (Nat.eqb x n)) l.
@@ -269,7 +312,7 @@ Qed.
 
 Definition allowed (lg : lgh) (q : req) : Prop :=
   match q with
-  | QRenameTmp t _ _ _ => lk lg = true /\ tm lg = Some (t, true)
+  | QRenameTmp t _ _ _ _ => lk lg = true /\ tm lg = Some (t, true)
   | QCommitList names => commit_add lg names \/ commit_cmp lg names \/ commit_add2 lg names
   | QRemove PLL => lk lg = true
   | QRemove (PT n) => In n (dd lg) \/ (lk lg = true /\ exists l, vw lg = Some l /\ ~ In n l)
@@ -285,8 +328,9 @@ Definition possible (lg : lgh) (q : req) (rs : resp) : Prop :=
                  (forall l, vw lg = Some l -> lnames rs = l)
   | QOpenTab n => (exists f, rs = STab f) \/ rs = SNoEnt
   | QCreateTemp => exists t, rs = STmp t
-  | QRenameTmp t mn mx txs =>
-      exists n f, rs = SNew n f /\ tf_min f = mn /\ tf_max f = mx /\ tf_txs f = txs /\ ~ In n (sn lg) /\ ~ In n (fr lg)
+  | QRenameTmp t mn mx txs hsh =>
+      exists n f, rs = SNew n f /\ tf_min f = mn /\ tf_max f = mx /\ tf_txs f = txs /\ ~ In n (sn lg) /\ ~ In n (fr lg) /\
+                  tf_hash f = hsh
   | QOpenOne cands => exists n o, rs = SVisited n o /\ In n cands
   | _ => True
   end.
@@ -312,7 +356,7 @@ Definition nxt (lg : lgh) (q : req) (rs : resp) : lgh :=
       | STmp t => mkL (lk lg) (vw lg) (kn lg) (sn lg) (dd lg) (gn lg) (fr lg) (Some (t, true)) (pd lg) (dn lg)
       | _ => lg
       end
-  | QRenameTmp t _ _ _ =>
+  | QRenameTmp t _ _ _ _ =>
       match rs with
       | SNew n f => mkL (lk lg) (vw lg) ((n, f) :: kn lg) (sn lg) (dd lg) (gn lg) (n :: fr lg) (Some (t, false)) (pd lg) (dn lg)
       | _ => lg
@@ -478,14 +522,15 @@ Qed.
 Lemma vwok_samep : forall a b, samep a b -> vwok a -> vwok b.
 Proof. intros a b (A & B & _) H E. rewrite A in E. rewrite B. apply H. exact E. Qed.
 
-Lemma reload_ok_gen : forall attempts reuse old lg,
-  vwok lg -> incl old (kn lg) -> incl (mnames old) (sn lg) ->
-  ok lg (reload attempts reuse old)
+Lemma reload_ok_gen : forall attempts hh reuse old lg,
+  vwok lg -> incl old (kn lg) -> incl (mnames old) (sn lg) -> mh hh old ->
+  ok lg (reload attempts hh reuse old)
      (fun lg' res => ext lg lg' /\ samep lg lg' /\
-        incl (fst res) (kn lg') /\ incl (mnames (fst res)) (sn lg') /\ snd res = RlOk).
+        incl (fst res) (kn lg') /\ incl (mnames (fst res)) (sn lg') /\
+        (snd res <> RlNotExist /\ mh hh (fst res))).
 Proof.
-  induction attempts as [|a IH]; intros reuse old lg Hlk Hold Holdn; cbn [reload].
-  - cbn. split; [apply ext_refl|]. split; [apply samep_refl|]. auto.
+  induction attempts as [|a IH]; intros hh reuse old lg Hlk Hold Holdn Hmh; cbn [reload].
+  - cbn. split; [apply ext_refl|]. split; [apply samep_refl|]. repeat split; auto. discriminate.
   - apply ok_op; [exact I|]. intros rs Hp.
     change (match rs with SNames (Some l) => l | _ => [] end) with (lnames rs).
     pose proof (readlist_samep Hlk Hp) as S1.
@@ -502,12 +547,22 @@ Proof.
     + cbn beta. intros lg2 o (E2 & S2 & Ho).
       destruct o as [m|].
       * destruct Ho as [Hm Hmn].
+        destruct (same_hash hh m) eqn:Esh.
+        2:{ (* a table of another hash type: the handle keeps what it had *)
+            cbn [ok fst snd].
+            split; [eapply ext_trans; eauto|]. split; [eapply samep_trans; eauto|].
+            assert (E : ext lg lg2) by (eapply ext_trans; eauto).
+            split; [destruct E as (E & _); eapply incl_tran; eauto|].
+            split; [destruct E as (_ & E & _); eapply incl_tran; eauto|].
+            split; [discriminate|exact Hmh]. }
+        apply same_hash_mh in Esh.
         eapply ok_bind.
         -- apply remove_any_ok. intros x Hx. apply filter_In in Hx as [Hx1 Hx2].
            destruct E2 as (_ & _ & E2 & _). apply E2. unfold lg1. cbn. apply in_or_app. left.
            apply filter_In. split; [apply Holdn; exact Hx1|exact Hx2].
         -- intros lg3 _ ->. cbn [ok fst snd].
-           split; [eapply ext_trans; eauto|]. split; [eapply samep_trans; eauto|]. auto.
+           split; [eapply ext_trans; eauto|]. split; [eapply samep_trans; eauto|].
+           split; [exact Hm|]. split; [exact Hmn|]. split; [discriminate|exact Esh].
       * destruct Ho as [n [Hn Hg]].
         assert (V2 : vwok lg2) by (eapply vwok_samep; [exact S2|]; eapply vwok_samep; [exact S1|exact Hlk]).
         apply ok_op; [exact I|]. intros rs2 Hp2.
@@ -526,26 +581,28 @@ Proof.
               ** eapply vwok_samep; [exact S|exact Hlk].
               ** destruct E as (E & _). eapply incl_tran; eauto.
               ** destruct E as (_ & E & _). eapply incl_tran; eauto.
+              ** exact Hmh.
            ++ cbn beta. intros lg4 res (E4 & S4 & R).
               split; [eapply ext_trans; eauto|]. split; [eapply samep_trans; eauto|]. exact R.
 Qed.
 
-Lemma reload_ok : forall attempts reuse old lg,
-  lk lg = false -> incl old (kn lg) -> incl (mnames old) (sn lg) ->
-  ok lg (reload attempts reuse old)
+Lemma reload_ok : forall attempts hh reuse old lg,
+  lk lg = false -> incl old (kn lg) -> incl (mnames old) (sn lg) -> mh hh old ->
+  ok lg (reload attempts hh reuse old)
      (fun lg' res => ext lg lg' /\ samep lg lg' /\
-        incl (fst res) (kn lg') /\ incl (mnames (fst res)) (sn lg') /\ snd res = RlOk).
+        incl (fst res) (kn lg') /\ incl (mnames (fst res)) (sn lg') /\
+        (snd res <> RlNotExist /\ mh hh (fst res))).
 Proof.
-  intros attempts reuse old lg Hlk. apply reload_ok_gen. intro E. congruence.
+  intros attempts hh reuse old lg Hlk. apply reload_ok_gen. intro E. congruence.
 Qed.
 
-Lemma open_reload_ok : forall attempts lg,
+Lemma open_reload_ok : forall attempts hh lg,
   lk lg = false ->
-  ok lg (open_reload attempts)
+  ok lg (open_reload attempts hh)
      (fun lg' res => ext lg lg' /\ samep lg lg' /\
-        match res with Some m => incl m (kn lg') /\ incl (mnames m) (sn lg') | None => True end).
+        match res with Some m => incl m (kn lg') /\ incl (mnames m) (sn lg') /\ mh hh m | None => True end).
 Proof.
-  induction attempts as [|a IH]; intros lg Hlk; cbn [open_reload].
+  induction attempts as [|a IH]; intros hh lg Hlk; cbn [open_reload].
   - cbn. split; [apply ext_refl|]. split; [apply samep_refl|exact I].
   - apply ok_op; [exact I|]. intros rs Hp.
     change (match rs with SNames (Some l) => l | _ => [] end) with (lnames rs).
@@ -562,7 +619,9 @@ Proof.
       * intros x [].
     + cbn beta. intros lg2 o (E2 & S2 & Ho).
       destruct o as [m|].
-      * cbn [ok]. split; [eapply ext_trans; eauto|]. split; [eapply samep_trans; eauto|]. exact Ho.
+      * destruct (same_hash hh m) eqn:Esh; cbn [ok];
+          (split; [eapply ext_trans; eauto|]); (split; [eapply samep_trans; eauto|]); [|exact I].
+        apply same_hash_mh in Esh. destruct Ho as [Ho1 Ho2]. auto.
       * apply ok_op; [exact I|]. intros rs2 Hp2.
         change (match rs2 with SNames (Some l) => l | _ => [] end) with (lnames rs2).
         set (lg3 := nxt lg2 QReadList rs2).
@@ -604,11 +663,11 @@ Definition idle_post (lg : lgh) (lg' : lgh) (m : mem) : Prop :=
 Lemma length_mnames : forall m : mem, length (mnames m) = length m.
 Proof. intro m. unfold mnames. apply map_length. Qed.
 
-Lemma compact_range_ok : forall attempts first last expiry m lg,
-  lk lg = false -> pd lg = None -> incl m (kn lg) -> incl (mnames m) (sn lg) -> first < length m ->
-  ok lg (compact_range attempts first last expiry m) (fun lg' res => idle_post lg lg' (fst res)).
+Lemma compact_range_ok : forall attempts hh first last expiry m lg,
+  lk lg = false -> pd lg = None -> incl m (kn lg) -> incl (mnames m) (sn lg) -> first < length m -> mh hh m ->
+  ok lg (compact_range attempts hh first last expiry m) (fun lg' res => idle_post lg lg' (fst res)).
 Proof.
-  intros attempts first last expiry m lg Hlk Hpd Hm Hmn Hfirst. unfold compact_range.
+  intros attempts hh first last expiry m lg Hlk Hpd Hm Hmn Hfirst Hmh. unfold compact_range.
   assert (Hdone : forall b : bool, idle_post lg lg (fst (m, b))) by (intro b; repeat split; assumption).
   destruct (Nat.leb last first && negb expiry); [cbn [ok]; apply Hdone|].
   apply ok_op; [exact I|]. intros r _.
@@ -660,16 +719,17 @@ Proof.
   { unfold lg6. cbn [nxt sn]. intros x Hx. apply in_or_app. right. apply N2. exact Hx. }
   destruct (find_run (mnames sub) (lnames c2) 0) as [start|] eqn:Hfr.
   - apply find_run_spec in Hfr as [_ Hfr]. rewrite Nat.sub_0_r, length_mnames in Hfr.
-    apply ok_op; [split; [exact L6|exact T6]|]. intros nw (n & f & -> & Fmin & Fmax & Ftx & Hfresh & _).
+    apply ok_op; [split; [exact L6|exact T6]|]. intros nw (n & f & -> & Fmin & Fmax & Ftx & Hfresh & _ & Fh).
     set (lg7 := nxt lg6 (QRenameTmp tmp (match sub with (_, f0) :: _ => tf_min f0 | [] => 0%N end) (last_max sub)
-                          (flat_map (fun x => tf_txs (snd x)) sub)) (SNew n f)).
+                          (flat_map (fun x => tf_txs (snd x)) sub) hh) (SNew n f)).
     set (names := firstn start (lnames c2) ++ [n] ++ skipn (start + length sub) (lnames c2)).
     apply ok_op.
     { right. left. exists sub, (firstn start (lnames c2)), (skipn (start + length sub) (lnames c2)), n, f.
       split; [exact Hpd|]. split; [cbn [lg7 nxt vw]; rewrite V6, <- Hfr; reflexivity|].
       split; [intros x Hx; right; apply Hm; apply Hsub; exact Hx|].
       split; [exact Hsubne|]. split; [reflexivity|]. split; [left; reflexivity|].
-      repeat split; auto. }
+      split; [exact Fmin|]. split; [exact Fmax|]. split; [exact Ftx|].
+      split; [rewrite Fh; eapply mh_incl; [exact Hsub|exact Hmh]|reflexivity]. }
     intros r8 _.
     set (lg8 := nxt lg7 (QCommitList names) r8).
     assert (L8 : lk lg8 = false) by reflexivity.
@@ -689,7 +749,7 @@ Proof.
         + apply nodup_app_r in Hnd. eapply nodup_app_disj; [exact Hnd|exact Hx|exact Hin]. }
     cbn beta. intros lg9 _ ->.
     eapply ok_bind.
-    { apply reload_ok; [exact L8|exact K8|exact N6]. }
+    { apply reload_ok; [exact L8|exact K8|exact N6|exact Hmh]. }
     cbn beta. intros lg10 rl (E10 & S10 & R1 & R2 & _).
     eapply ok_bind; [apply remove_tlocks_ok|]. cbn beta. intros lg11 _ ->.
     cbn [ok fst]. destruct S10 as (A1 & A2 & A3 & A4 & A5 & A6).
@@ -701,11 +761,11 @@ Proof.
     repeat split; try assumption.
 Qed.
 
-Lemma auto_compact_ok : forall attempts m lg,
-  lk lg = false -> pd lg = None -> incl m (kn lg) -> incl (mnames m) (sn lg) ->
-  ok lg (auto_compact attempts m) (fun lg' m' => idle_post lg lg' m').
+Lemma auto_compact_ok : forall attempts hh m lg,
+  lk lg = false -> pd lg = None -> incl m (kn lg) -> incl (mnames m) (sn lg) -> mh hh m ->
+  ok lg (auto_compact attempts hh m) (fun lg' m' => idle_post lg lg' m').
 Proof.
-  intros attempts m lg Hlk Hpd Hm Hmn. unfold auto_compact.
+  intros attempts hh m lg Hlk Hpd Hm Hmn Hmh. unfold auto_compact.
   destruct (suggest (map (fun x => tf_size (snd x)) m)) as [[s e]|] eqn:E.
   - apply suggest_start_lt in E. rewrite map_length in E.
     eapply ok_bind; [apply compact_range_ok; eassumption|].
@@ -725,14 +785,14 @@ Definition add_res (kind : add_kind) (lg' : lgh) (r : apires) : Prop :=
 Definition add_post (kind : add_kind) (lg' : lgh) (res : mem * apires) : Prop :=
   incl (fst res) (kn lg') /\ incl (mnames (fst res)) (sn lg') /\ add_res kind lg' (snd res).
 
-Lemma add_ok : forall attempts kind auto m lg,
+Lemma add_ok : forall attempts hh kind auto m lg,
   lk lg = false -> incl m (kn lg) -> incl (mnames m) (sn lg) ->
-  pd lg = (match kind with KAdd tx => Some tx | _ => None end) -> dn lg = None -> fr lg = [] ->
-  ok lg (add attempts kind auto m) (add_post kind).
+  pd lg = (match kind with KAdd tx => Some tx | _ => None end) -> dn lg = None -> fr lg = [] -> mh hh m ->
+  ok lg (add attempts hh kind auto m) (add_post kind).
 Proof.
-  intros attempts kind auto m lg Hlk Hm Hmn Hpd Hdn Hfr0. unfold add.
+  intros attempts hh kind auto m lg Hlk Hm Hmn Hpd Hdn Hfr0 Hmh. unfold add.
   assert (Hfail : forall lgx, lk lgx = false -> incl m (kn lgx) -> incl (mnames m) (sn lgx) -> dn lgx = None ->
-            ok lgx (do! rl := reload attempts true m in Ret (fst rl, RLockFailure)) (add_post kind)).
+            ok lgx (do! rl := reload attempts hh true m in Ret (fst rl, RLockFailure)) (add_post kind)).
   { intros lgx A B C D. eapply ok_bind; [apply reload_ok; assumption|].
     cbn beta. intros lg' rl (_ & S & R1 & R2 & _). cbn [ok]. split; [exact R1|]. split; [exact R2|].
     destruct S as (_ & _ & _ & _ & _ & S). cbn [snd]. rewrite <- S in D.
@@ -757,26 +817,27 @@ Proof.
   destruct kind as [tx| |].
   - (* a real transaction *)
     apply ok_op; [exact I|]. intros r5 _. cbn [nxt].
-    apply ok_op; [split; [exact L2|exact T4]|]. intros nw (n & f & -> & Fmin & Fmax & Ftx & Hfresh & _).
-    set (lg6 := nxt lg4 (QRenameTmp tmp (next_index m) (next_index m) [tx]) (SNew n f)).
+    apply ok_op; [split; [exact L2|exact T4]|]. intros nw (n & f & -> & Fmin & Fmax & Ftx & Hfresh & _ & Fh).
+    set (lg6 := nxt lg4 (QRenameTmp tmp (next_index m) (next_index m) [tx] hh) (SNew n f)).
     apply ok_op; [exists false; reflexivity|]. intros r7 _.
     set (lg7 := nxt lg6 (QRemove (PTmp tmp)) r7).
     apply ok_op.
     { left. exists tx, m, n, f. split; [exact Hpd|]. split; [exact V2|].
       split; [intros x Hx; right; apply Hm; exact Hx|].
       split; [cbn [lg7 nxt fr lg6 lg4 lg2 lg1]; rewrite Hfr0; reflexivity|]. split; [left; reflexivity|].
-      repeat split; auto. }
+      split; [exact Fmin|]. split; [exact Fmax|]. split; [exact Ftx|].
+      split; [rewrite Fh; exact Hmh|reflexivity]. }
     intros r8 _.
     set (lg8 := nxt lg7 (QCommitList (mnames m ++ [n])) r8).
     assert (D8 : dn lg8 = Some tx).
     { unfold lg8. cbn [nxt dn lg7 pd lg6 lg4 lg2 lg1]. rewrite Hpd. reflexivity. }
     eapply ok_bind.
-    { apply reload_ok with (lg := lg8); [reflexivity| |exact N2]. intros x Hx. right. apply Hm. exact Hx. }
-    cbn beta. intros lg9 rl (_ & S9 & R1 & R2 & _).
+    { apply reload_ok with (lg := lg8); [reflexivity| |exact N2|exact Hmh]. intros x Hx. right. apply Hm. exact Hx. }
+    cbn beta. intros lg9 rl (_ & S9 & R1 & R2 & _ & R3).
     destruct S9 as (A1 & A2 & A3 & A4 & A5 & A6).
     destruct auto.
     + eapply ok_bind.
-      { apply auto_compact_ok; [rewrite A1; reflexivity|rewrite A5; reflexivity|exact R1|exact R2]. }
+      { apply auto_compact_ok; [rewrite A1; reflexivity|rewrite A5; reflexivity|exact R1|exact R2|exact R3]. }
       cbn beta. intros lg10 m' (B1 & B2 & B3 & B4 & B5). cbn [ok].
       split; [exact B4|]. split; [exact B5|]. left. split; [reflexivity|]. rewrite B3, A6. exact D8.
     + cbn [ok]. split; [exact R1|]. split; [exact R2|]. left. split; [reflexivity|]. rewrite A6. exact D8.
@@ -786,7 +847,7 @@ Proof.
     set (lg6 := nxt (nxt lg4 (QRemove (PTmp tmp)) r5) (QRemove PLL) r6).
     destruct auto.
     + eapply ok_bind.
-      { apply auto_compact_ok with (lg := lg6); [reflexivity|exact Hpd|exact K2|exact N2]. }
+      { apply auto_compact_ok with (lg := lg6); [reflexivity|exact Hpd|exact K2|exact N2|exact Hmh]. }
       cbn beta. intros lg10 m' (B1 & B2 & B3 & B4 & B5). cbn [ok].
       split; [exact B4|]. split; [exact B5|]. left. reflexivity.
     + cbn [ok]. split; [exact K2|]. split; [exact N2|]. left. reflexivity.
@@ -797,12 +858,12 @@ Qed.
 
 (* ---------------- add_multi ---------------- *)
 
-Lemma add_multi_ok : forall attempts tx same m lg,
+Lemma add_multi_ok : forall attempts hh tx same m lg,
   lk lg = false -> incl m (kn lg) -> incl (mnames m) (sn lg) ->
-  pd lg = Some tx -> dn lg = None -> fr lg = [] ->
-  ok lg (add_multi attempts tx same m) (add_post (KAdd tx)).
+  pd lg = Some tx -> dn lg = None -> fr lg = [] -> mh hh m ->
+  ok lg (add_multi attempts hh tx same m) (add_post (KAdd tx)).
 Proof.
-  intros attempts tx same m lg Hlk Hm Hmn Hpd Hdn Hfr0. unfold add_multi.
+  intros attempts hh tx same m lg Hlk Hm Hmn Hpd Hdn Hfr0 Hmh. unfold add_multi.
   assert (Hfail : forall lgx, incl m (kn lgx) -> incl (mnames m) (sn lgx) -> dn lgx = None ->
             add_post (KAdd tx) lgx (m, RLockFailure)).
   { intros lgx A B C. split; [exact A|]. split; [exact B|]. right. split; [reflexivity|exact C]. }
@@ -824,8 +885,8 @@ Proof.
   set (lg4 := nxt lg2 QCreateTemp (STmp tmp)).
   assert (T4 : tm lg4 = Some (tmp, true)) by reflexivity.
   apply ok_op; [exact I|]. intros r5 _. cbn [nxt].
-  apply ok_op; [split; [exact L2|exact T4]|]. intros nw (n1 & f1 & -> & Fmin1 & Fmax1 & Ftx1 & Hfresh1 & _).
-  set (lg6 := nxt lg4 (QRenameTmp tmp (next_index m) (next_index m) [tx]) (SNew n1 f1)).
+  apply ok_op; [split; [exact L2|exact T4]|]. intros nw (n1 & f1 & -> & Fmin1 & Fmax1 & Ftx1 & Hfresh1 & _ & Fh1).
+  set (lg6 := nxt lg4 (QRenameTmp tmp (next_index m) (next_index m) [tx] hh) (SNew n1 f1)).
   assert (F6 : fr lg6 = [n1]) by (cbn [lg6 nxt fr lg4 lg2 lg1]; rewrite Hfr0; reflexivity).
   apply ok_op; [exists false; reflexivity|]. intros r7 _.
   set (lg7 := nxt lg6 (QRemove (PTmp tmp)) r7).
@@ -859,10 +920,10 @@ Proof.
          split; [exact Hdn|]; split; [|reflexivity]); try apply incl_refl. apply incl_tl, incl_refl. }
     destruct X9 as (L9 & V9 & F9 & T9 & P9 & D9 & K9 & S9).
     apply ok_op; [exact I|]. intros r10 _. cbn [nxt].
-    apply ok_op; [split; [exact L9|exact T9]|]. intros nw2 (n2 & f2 & -> & Fmin2 & Fmax2 & Ftx2 & Hfresh2 & Hnf2).
+    apply ok_op; [split; [exact L9|exact T9]|]. intros nw2 (n2 & f2 & -> & Fmin2 & Fmax2 & Ftx2 & Hfresh2 & Hnf2 & Fh2).
     rewrite F9 in Hnf2.
     assert (Hne : n1 <> n2) by (intro X; apply Hnf2; left; exact X).
-    set (lg11 := nxt lg9 (QRenameTmp tmp2 (next_index m + 1)%N (next_index m + 1)%N []) (SNew n2 f2)).
+    set (lg11 := nxt lg9 (QRenameTmp tmp2 (next_index m + 1)%N (next_index m + 1)%N [] hh) (SNew n2 f2)).
     apply ok_op; [exists false; reflexivity|]. intros r12 _.
     set (lg12 := nxt lg11 (QRemove (PTmp tmp2)) r12).
     apply ok_op.
@@ -873,13 +934,15 @@ Proof.
       split; [exact Hne|].
       split; [cbn [lg12 lg11 nxt kn]; right; apply K9; exact K8n|].
       split; [cbn [lg12 lg11 nxt kn]; left; reflexivity|].
-      repeat split; assumption. }
+      split; [exact Fmin1|]. split; [exact Fmax1|]. split; [exact Ftx1|].
+      split; [exact Fmin2|]. split; [exact Fmax2|]. split; [exact Ftx2|].
+      split; [rewrite Fh1; exact Hmh|]. split; [congruence|reflexivity]. }
     intros r13 _.
     set (lg13 := nxt lg12 (QCommitList (mnames m ++ [n1; n2])) r13).
     assert (D13 : dn lg13 = Some tx).
     { unfold lg13. cbn [nxt dn lg12 lg11 pd]. rewrite P9. reflexivity. }
     eapply ok_bind.
-    { apply reload_ok with (lg := lg13); [reflexivity| |].
+    { apply reload_ok with (lg := lg13); [reflexivity| | |exact Hmh].
       - intros x Hx. cbn [lg13 lg12 lg11 nxt kn]. right. apply K9. apply K8. exact Hx.
       - cbn [lg13 nxt sn lg12 lg11]. rewrite S9. exact N2. }
     cbn beta. intros lg14 rl (_ & S14 & R1 & R2 & _).
@@ -952,29 +1015,65 @@ Proof.
     cbn [remove_any pbind op okp]. intros rs _. cbn [nxt]. destruct rs; try (cbn; reflexivity). apply IH.
 Qed.
 
-(* under the list lock, with a validated view, a reload returns the listed stack *)
-Lemma reload_okp : forall a reuse old lg l,
-  lk lg = true -> vw lg = Some l -> mnames old = l ->
-  okp lg (reload a reuse old) (fun _ res => mnames (fst res) = l).
+Lemma lookup_none_notin : forall (old : mem) n, lookup n old = None -> ~ In n (mnames old).
 Proof.
-  induction a as [|a IH]; intros reuse old lg l Hlk Hvw Hold; cbn [reload].
-  - cbn [okp fst]. exact Hold.
+  induction old as [|[k f] old IH]; intros n H; cbn [lookup mnames map fst] in *; [intros []|].
+  destruct (Nat.eqb_spec n k); [discriminate|]. intros [X|X]; [congruence|]. apply (IH n H). exact X.
+Qed.
+
+(* with reuse, a table whose name the old stack holds is the old stack's table *)
+Lemma open_all_okp_old : forall old names acc lg,
+  okp lg (open_all true old names acc)
+      (fun _ o => forall m, o = Some m -> forall x, In x m -> In x acc \/ In x old \/ ~ In (fst x) (mnames old)).
+Proof.
+  intros old. induction names as [|n t IH]; intros acc lg; cbn [open_all].
+  - cbn [okp]. intros m E x Hx. inversion E; subst. left. apply in_rev. exact Hx.
+  - destruct (lookup n old) as [f|] eqn:El.
+    + eapply okp_conseq; [apply IH|]. cbn beta. intros lg' o H m E x Hx.
+      destruct (H m E x Hx) as [[<-|X]|X]; auto. right. left. apply lookup_In. exact El.
+    + cbn [pbind op okp]. intros rs Hp. destruct Hp as [[f ->]| ->].
+      * eapply okp_conseq; [apply IH|]. cbn beta. intros lg' o H m E x Hx.
+        destruct (H m E x Hx) as [[<-|X]|X]; auto. right. right. cbn [fst]. apply lookup_none_notin. exact El.
+      * cbn [okp]. intros m E. discriminate E.
+Qed.
+
+Lemma okp_and : forall {A} (p : prog A) lg (Q1 Q2 : lgh -> A -> Prop),
+  okp lg p Q1 -> okp lg p Q2 -> okp lg p (fun lg' a => Q1 lg' a /\ Q2 lg' a).
+Proof.
+  induction p as [a|q k IH]; intros lg Q1 Q2 H1 H2; cbn [okp] in *; [split; assumption|].
+  intros rs Hp. apply IH; auto.
+Qed.
+
+(* under the list lock, with a validated view, a reload returns the listed stack
+   (and, reusing an up-to-date stack of the handle's hash type, finds no foreign table) *)
+Lemma reload_okp : forall a hh old lg l,
+  lk lg = true -> vw lg = Some l -> mnames old = l -> mh hh old ->
+  okp lg (reload a hh true old) (fun _ res => mnames (fst res) = l /\ snd res <> RlBadHash).
+Proof.
+  induction a as [|a IH]; intros hh old lg l Hlk Hvw Hold Hmh; cbn [reload].
+  - cbn [okp fst snd]. split; [exact Hold|discriminate].
   - cbn [pbind op okp]. intros rs Hp.
     change (match rs with SNames (Some l) => l | _ => [] end) with (lnames rs).
     destruct Hp as (_ & _ & _ & Hl). specialize (Hl l Hvw).
     set (lg1 := nxt lg QReadList rs).
     assert (L1 : lk lg1 = true) by exact Hlk.
     assert (V1 : vw lg1 = Some l) by (unfold lg1; cbn [nxt vw]; rewrite Hlk, Hl; reflexivity).
-    eapply okp_bind; [apply open_all_okp|]. cbn beta. intros lg2 o (L2 & V2 & Ho).
+    eapply okp_bind; [apply okp_and; [apply open_all_okp|apply open_all_okp_old]|].
+    cbn beta. intros lg2 o ((L2 & V2 & Ho) & Hold2).
     rewrite L1 in L2. rewrite V1 in V2.
     destruct o as [m|].
-    + eapply okp_bind; [apply remove_any_okp|]. cbn beta. intros lg3 _ ->. cbn [okp fst].
-      rewrite (Ho m eq_refl). cbn [mnames map rev app]. exact Hl.
+    + assert (Em : mnames m = l) by (rewrite (Ho m eq_refl); cbn [mnames map rev app]; exact Hl).
+      assert (Esh : same_hash hh m = true).
+      { apply same_hash_mh. intros x Hx. destruct (Hold2 m eq_refl x Hx) as [[]|[X|X]]; [apply Hmh; exact X|].
+        exfalso. apply X. rewrite Hold, <- Em. unfold mnames. apply in_map. exact Hx. }
+      rewrite Esh.
+      eapply okp_bind; [apply remove_any_okp|]. cbn beta. intros lg3 _ ->. cbn [okp fst snd].
+      split; [exact Em|discriminate].
     + cbn [pbind op okp]. intros rs2 Hp2.
       change (match rs2 with SNames (Some l) => l | _ => [] end) with (lnames rs2).
       destruct Hp2 as (_ & _ & _ & Hl2). specialize (Hl2 l V2).
-      destruct (names_eqb (lnames rs2) (lnames rs)); [cbn [okp fst]; exact Hold|].
-      apply IH; [exact L2| |exact Hold]. cbn [nxt vw]. rewrite L2, Hl2. reflexivity.
+      destruct (names_eqb (lnames rs2) (lnames rs)); [cbn [okp fst snd]; split; [exact Hold|discriminate]|].
+      apply IH; [exact L2| |exact Hold|exact Hmh]. cbn [nxt vw]. rewrite L2, Hl2. reflexivity.
 Qed.
 
 Lemma clean_loop_ok : forall fuel cands mx lg l,
@@ -998,11 +1097,11 @@ Qed.
 Definition clean_post (lg' : lgh) (res : mem * apires) : Prop :=
   incl (fst res) (kn lg') /\ incl (mnames (fst res)) (sn lg') /\ (snd res = ROk \/ snd res = RLockFailure).
 
-Lemma clean_ok : forall attempts m lg,
-  lk lg = false -> incl m (kn lg) -> incl (mnames m) (sn lg) -> fr lg = [] ->
-  ok lg (clean attempts m) clean_post.
+Lemma clean_ok : forall attempts hh m lg,
+  lk lg = false -> incl m (kn lg) -> incl (mnames m) (sn lg) -> fr lg = [] -> mh hh m ->
+  ok lg (clean attempts hh m) clean_post.
 Proof.
-  intros attempts m lg Hlk Hm Hmn Hfr0. unfold clean.
+  intros attempts hh m lg Hlk Hm Hmn Hfr0 Hmh. unfold clean.
   assert (Hfail : forall lgx, incl m (kn lgx) -> incl (mnames m) (sn lgx) -> clean_post lgx (m, RLockFailure)).
   { intros lgx A B. split; [exact A|]. split; [exact B|]. right. reflexivity. }
   apply ok_op; [exact I|]. intros r _.
@@ -1022,9 +1121,10 @@ Proof.
   assert (V2 : vw lg2 = Some (mnames m)) by (cbn; rewrite Eq; reflexivity).
   eapply ok_bind.
   { apply ok_okp.
-    - apply reload_ok_gen with (lg := lg2); [intros _; exists (mnames m); exact V2|exact K2|exact N2].
-    - apply reload_okp with (l := mnames m); [exact L2|exact V2|reflexivity]. }
-  cbn beta. intros lg3 [m1 st] ((E3 & S3 & R1 & R2 & R3) & Hnm). cbn [fst snd] in *. subst st.
+    - apply reload_ok_gen with (lg := lg2); [intros _; exists (mnames m); exact V2|exact K2|exact N2|exact Hmh].
+    - apply reload_okp with (l := mnames m); [exact L2|exact V2|reflexivity|exact Hmh]. }
+  cbn beta. intros lg3 [m1 st] ((E3 & S3 & R1 & R2 & R3 & _) & Hnm & R4). cbn [fst snd] in *.
+  destruct st; [|congruence|congruence].
   destruct S3 as (A1 & A2 & A3 & A4 & A5 & A6).
   assert (L3 : lk lg3 = true) by (rewrite A1; exact L2).
   assert (V3 : vw lg3 = Some (mnames m)) by (rewrite A2; exact V2).
@@ -1038,6 +1138,119 @@ Proof.
     intros n Hn. apply filter_In in Hn as [_ Hn]. apply negb_true_iff in Hn. apply mem_nat_false in Hn.
     rewrite <- Hnm. exact Hn. }
   cbn beta. intros lg4 _ ->. exact Hdone.
+Qed.
+
+(* ---------------- the stack a call returns is of the handle's hash type ---------------- *)
+
+Lemma leaves_reload_mh : forall a hh reuse old, mh hh old ->
+  leaves (reload a hh reuse old) (fun res => mh hh (fst res)).
+Proof.
+  induction a as [|a IH]; intros hh reuse old Hold; cbn [reload]; [exact Hold|].
+  cbn [pbind op leaves]. intro rs. apply leaves_bind. intros [m|].
+  - destruct (same_hash hh m) eqn:E; [|exact Hold].
+    apply leaves_bind. intros _. cbn [leaves fst]. apply same_hash_mh. exact E.
+  - cbn [pbind op leaves]. intro rs2. destruct (names_eqb _ _); [exact Hold|apply IH; exact Hold].
+Qed.
+
+Lemma leaves_open_reload_mh : forall a hh,
+  leaves (open_reload a hh) (fun res => forall m, res = Some m -> mh hh m).
+Proof.
+  induction a as [|a IH]; intros hh; cbn [open_reload]; [cbn [leaves]; intros m E; discriminate E|].
+  cbn [pbind op leaves]. intro rs. apply leaves_bind. intros [m|].
+  - destruct (same_hash hh m) eqn:E; cbn [leaves]; intros m' E'; [|discriminate E'].
+    inversion E'; subst m'. apply same_hash_mh. exact E.
+  - cbn [pbind op leaves]. intro rs2. destruct (names_eqb _ _); [cbn [leaves]; intros m E; discriminate E|apply IH].
+Qed.
+
+Ltac lv_extra := fail.
+Ltac lvgo :=
+  repeat match goal with
+  | |- _ => lv_extra
+  | |- leaves (Ret _) _ => cbn [leaves fst snd]
+  | |- leaves (pbind (op _) _) _ => cbn [pbind op leaves]; intro
+  | |- leaves (Op _ _) _ => cbn [leaves]; intro
+  | |- forall _ : resp, _ => intro
+  | |- leaves (pbind (reload _ _ _ _) _) _ =>
+      eapply leaves_bind2; [apply leaves_reload_mh; eassumption|cbn beta; intros [? ?] ?; cbn [fst snd] in *]
+  | |- leaves (pbind _ _) _ => apply leaves_bind; intro
+  | |- leaves (let _ := _ in _) _ => cbv zeta
+  | |- leaves (match ?x with _ => _ end) _ => destruct x
+  end.
+
+Lemma leaves_compact_range_mh : forall att hh first last expiry m, mh hh m ->
+  leaves (compact_range att hh first last expiry m) (fun res => mh hh (fst res)).
+Proof. intros att hh first last expiry m Hm. unfold compact_range. lvgo; assumption. Qed.
+
+Lemma leaves_auto_compact_mh : forall att hh m, mh hh m ->
+  leaves (auto_compact att hh m) (fun m' => mh hh m').
+Proof.
+  intros att hh m Hm. unfold auto_compact. destruct (suggest _) as [[s e]|]; [|exact Hm].
+  eapply leaves_bind2; [apply leaves_compact_range_mh; exact Hm|]. cbn beta. intros a Ha. exact Ha.
+Qed.
+
+Ltac lv_extra ::=
+  match goal with
+  | |- leaves (pbind (auto_compact _ _ _) _) _ =>
+      eapply leaves_bind2; [apply leaves_auto_compact_mh; eassumption|cbn beta; intros ? ?]
+  end.
+
+Lemma leaves_add_mh : forall att hh kind auto m, mh hh m ->
+  leaves (add att hh kind auto m) (fun res => mh hh (fst res)).
+Proof. intros att hh kind auto m Hm. unfold add. lvgo; assumption. Qed.
+
+Lemma leaves_add_multi_mh : forall att hh tx same m, mh hh m ->
+  leaves (add_multi att hh tx same m) (fun res => mh hh (fst res)).
+Proof. intros att hh tx same m Hm. unfold add_multi. lvgo; assumption. Qed.
+
+Lemma leaves_clean_mh : forall att hh m, mh hh m ->
+  leaves (clean att hh m) (fun res => mh hh (fst res)).
+Proof. intros att hh m Hm. unfold clean. lvgo; assumption. Qed.
+
+Lemma leaves_wrap : forall A (p : prog A) f (Q : option mem * apires -> Prop),
+  (forall a, Q (f a)) -> leaves (wrap p f) Q.
+Proof. intros A p f Q H. unfold wrap. apply leaves_bind. intro a. cbn [leaves]. apply H. Qed.
+
+Lemma leaves_wrap2 : forall A (p : prog A) f (P : A -> Prop) (Q : option mem * apires -> Prop),
+  leaves p P -> (forall a, P a -> Q (f a)) -> leaves (wrap p f) Q.
+Proof. intros A p f P Q Hp H. unfold wrap. eapply leaves_bind2; [exact Hp|]. intros a Ha. cbn [leaves]. apply H. exact Ha. Qed.
+
+Definition omh (hh : bool) (m : option mem) : Prop := forall mm, m = Some mm -> mh hh mm.
+
+Lemma leaves_call_prog_mh : forall att hh o m, omh hh m ->
+  leaves (call_prog att hh o m) (fun res => omh hh (fst res)).
+Proof.
+  intros att hh o m Hm.
+  assert (Hsome : forall (B : Type) (p : prog (mem * B)) (g : mem * B -> apires),
+            leaves p (fun res => mh hh (fst res)) ->
+            leaves (wrap p (fun r => (Some (fst r), g r))) (fun res => omh hh (fst res))).
+  { intros B p g Hp. eapply leaves_wrap2; [exact Hp|]. cbn beta. intros a Ha mm E. cbn [fst] in E. inversion E; subst. exact Ha. }
+  assert (Hnone : forall r, omh hh (fst (@None mem, r : apires))) by (intros r mm E; discriminate E).
+  destruct o; cbn [call_prog].
+  - eapply leaves_wrap2; [apply leaves_open_reload_mh|]. cbn beta. intros [m1|] H1 mm E; cbn [fst] in E; [|discriminate E].
+    inversion E; subst. apply H1. reflexivity.
+  - destruct m as [mm|]; [|apply Hnone]. apply (Hsome _ _ (fun r => snd r)). apply leaves_add_mh. apply Hm. reflexivity.
+  - destruct m as [mm|]; [|apply Hnone]. apply (Hsome _ _ (fun r => snd r)). apply leaves_add_multi_mh. apply Hm. reflexivity.
+  - destruct m as [mm|]; [|apply Hnone]. apply (Hsome _ _ (fun r => snd r)). apply leaves_add_mh. apply Hm. reflexivity.
+  - destruct m as [mm|]; [|apply Hnone]. apply (Hsome _ _ (fun r => snd r)). apply leaves_add_mh. apply Hm. reflexivity.
+  - destruct m as [mm|]; [|apply Hnone]. specialize (Hm mm eq_refl).
+    destruct mm as [|x mm]; [cbn [leaves fst]; intros m' E; inversion E; subst; exact Hm|].
+    apply (Hsome _ _ (fun _ => ROk)). apply leaves_compact_range_mh. exact Hm.
+  - destruct m as [mm|]; [|apply Hnone]. specialize (Hm mm eq_refl).
+    destruct (Nat.ltb last (length mm) && Nat.leb first last); [|cbn [leaves fst]; intros m' E; inversion E; subst; exact Hm].
+    apply (Hsome _ _ (fun _ => ROk)). apply leaves_compact_range_mh. exact Hm.
+  - destruct m as [mm|]; [|apply Hnone]. specialize (Hm mm eq_refl).
+    destruct mm as [|x mm]; [cbn [leaves fst]; intros m' E; inversion E; subst; exact Hm|].
+    apply (Hsome _ _ (fun _ => ROk)). apply leaves_compact_range_mh. exact Hm.
+  - destruct m as [mm|]; [|apply Hnone]. apply leaves_wrap. intros a. apply Hnone.
+  - destruct m as [mm|]; [|apply Hnone]. cbn [leaves fst]. intros m' E. inversion E; subst. apply Hm. reflexivity.
+  - destruct m as [mm|]; [|apply Hnone]. apply (Hsome _ _ (fun r => snd r)). apply leaves_clean_mh. apply Hm. reflexivity.
+Qed.
+
+Lemma ok_leaves : forall {A} (p : prog A) lg (Q : lgh -> A -> Prop) (P : A -> Prop),
+  ok lg p Q -> leaves p P -> ok lg p (fun lg' a => Q lg' a /\ P a).
+Proof.
+  induction p as [a|q k IH]; intros lg Q P H1 H2; cbn [ok leaves] in *; [split; assumption|].
+  destruct H1 as [Ha Hk]. split; [exact Ha|]. intros rs Hp. apply IH; auto.
 Qed.
 
 (* ---------------- call_prog ---------------- *)
@@ -1058,14 +1271,20 @@ Definition retchk (o : apiop) (r : apires) (d : option nat) : bool :=
   | _ => true
   end.
 
-Definition Qcall (o : apiop) (lg : lgh) (res : option mem * apires) : Prop :=
+Definition Qcall0 (o : apiop) (lg : lgh) (res : option mem * apires) : Prop :=
   (forall mm, fst res = Some mm -> incl mm (kn lg) /\ incl (mnames mm) (sn lg)) /\
   ret_allowed o (snd res) = true /\ retchk o (snd res) (dn lg) = true.
 
-Lemma call_prog_ok : forall attempts o m,
-  ok (lg_init o m) (call_prog attempts o m) (Qcall o).
+(* [hh]: the hash type of the handle *)
+Definition Qcall (hh : bool) (o : apiop) (lg : lgh) (res : option mem * apires) : Prop :=
+  (forall mm, fst res = Some mm -> incl mm (kn lg) /\ incl (mnames mm) (sn lg)) /\
+  ret_allowed o (snd res) = true /\ retchk o (snd res) (dn lg) = true /\ omh hh (fst res).
+
+Lemma call_prog_ok0 : forall attempts hh o m, omh hh m ->
+  ok (lg_init o m) (call_prog attempts hh o m) (Qcall0 o).
 Proof.
-  intros attempts o m.
+  intros attempts hh o m Hmh. change Qcall0 with (fun o' => Qcall0 o').
+  set (Qcall := Qcall0).
   assert (Hnone : forall r, ret_allowed o r = true -> retchk o r None = true ->
                    ok (lg_init o m) (Ret (@None mem, r)) (Qcall o)).
   { intros r A B. cbn [ok]. split; [|split; assumption]. cbn. intros mm E. discriminate. }
@@ -1076,11 +1295,12 @@ Proof.
     unfold wrap. eapply ok_bind.
     + apply open_reload_ok with (lg := lg_init AOpen m). reflexivity.
     + cbn beta. intros lg' [mm|] (_ & S & R); cbn [ok]; (split; [|split; reflexivity]).
-      * cbn [fst]. intros mm' E. inversion E; subst. exact R.
+      * cbn [fst]. intros mm' E. inversion E; subst. split; apply R.
       * cbn [fst]. intros mm' E. discriminate E.
   - (* Add *)
     destruct m as [mm|]; [|apply Hnone; reflexivity].
     destruct (Hinc mm eq_refl) as [I1 I2].
+    pose proof (Hmh mm eq_refl) as I3.
     unfold wrap. eapply ok_bind.
     + apply add_ok with (kind := KAdd tx) (lg := lg_init (AAdd tx auto) (Some mm)); try reflexivity; assumption.
     + cbn beta. intros lg' res (R1 & R2 & R3). cbn [ok]. split.
@@ -1091,6 +1311,7 @@ Proof.
   - (* AddMulti *)
     destruct m as [mm|]; [|apply Hnone; reflexivity].
     destruct (Hinc mm eq_refl) as [I1 I2].
+    pose proof (Hmh mm eq_refl) as I3.
     unfold wrap. eapply ok_bind.
     + apply add_multi_ok with (lg := lg_init (AAddMulti tx same) (Some mm)); try reflexivity; assumption.
     + cbn beta. intros lg' res (R1 & R2 & R3). cbn [ok]. split.
@@ -1101,6 +1322,7 @@ Proof.
   - (* AddEmpty *)
     destruct m as [mm|]; [|apply Hnone; reflexivity].
     destruct (Hinc mm eq_refl) as [I1 I2].
+    pose proof (Hmh mm eq_refl) as I3.
     unfold wrap. eapply ok_bind.
     + apply add_ok with (kind := KEmpty) (lg := lg_init AAddEmpty (Some mm)); try reflexivity; assumption.
     + cbn beta. intros lg' res (R1 & R2 & R3). cbn [ok]. split.
@@ -1109,6 +1331,7 @@ Proof.
   - (* AddBad *)
     destruct m as [mm|]; [|apply Hnone; reflexivity].
     destruct (Hinc mm eq_refl) as [I1 I2].
+    pose proof (Hmh mm eq_refl) as I3.
     unfold wrap. eapply ok_bind.
     + apply add_ok with (kind := KBad) (lg := lg_init AAddBad (Some mm)); try reflexivity; assumption.
     + cbn beta. intros lg' res (R1 & R2 & R3). cbn [ok]. split.
@@ -1117,6 +1340,7 @@ Proof.
   - (* CompactAll *)
     destruct m as [mm|]; [|apply Hnone; reflexivity].
     destruct (Hinc mm eq_refl) as [I1 I2].
+    pose proof (Hmh mm eq_refl) as I3.
     destruct mm as [|x mm].
     + cbn [ok]. split; [|split; reflexivity]. cbn [fst]. intros mm' E. inversion E; subst. split; assumption.
     + unfold wrap. eapply ok_bind.
@@ -1127,6 +1351,7 @@ Proof.
   - (* Compact *)
     destruct m as [mm|]; [|apply Hnone; reflexivity].
     destruct (Hinc mm eq_refl) as [I1 I2].
+    pose proof (Hmh mm eq_refl) as I3.
     destruct (Nat.ltb last (length mm) && Nat.leb first last) eqn:Erng.
     + apply andb_true_iff in Erng as [Elt Ele]. apply Nat.ltb_lt in Elt. apply Nat.leb_le in Ele.
       unfold wrap. eapply ok_bind.
@@ -1138,6 +1363,7 @@ Proof.
   - (* Expire *)
     destruct m as [mm|]; [|apply Hnone; reflexivity].
     destruct (Hinc mm eq_refl) as [I1 I2].
+    pose proof (Hmh mm eq_refl) as I3.
     destruct mm as [|x mm].
     + cbn [ok]. split; [|split; reflexivity]. cbn [fst]. intros mm' E. inversion E; subst. split; assumption.
     + unfold wrap. eapply ok_bind.
@@ -1148,21 +1374,32 @@ Proof.
   - (* Close *)
     destruct m as [mm|]; [|apply Hnone; reflexivity].
     destruct (Hinc mm eq_refl) as [I1 I2].
+    pose proof (Hmh mm eq_refl) as I3.
     unfold wrap. eapply ok_bind.
     + apply close_ok; [reflexivity|exact I2].
     + cbn beta. intros lg' _ _. cbn [ok]. split; [|split; reflexivity]. cbn. intros mm' E. discriminate.
   - (* Read *)
     destruct m as [mm|]; [|apply Hnone; reflexivity].
     destruct (Hinc mm eq_refl) as [I1 I2].
+    pose proof (Hmh mm eq_refl) as I3.
     cbn [ok]. split; [|split; reflexivity]. cbn [fst]. intros mm' E. inversion E; subst. split; assumption.
   - (* Clean *)
     destruct m as [mm|]; [|apply Hnone; reflexivity].
     destruct (Hinc mm eq_refl) as [I1 I2].
+    pose proof (Hmh mm eq_refl) as I3.
     unfold wrap. eapply ok_bind.
     + apply clean_ok with (lg := lg_init AClean (Some mm)); try reflexivity; assumption.
     + cbn beta. intros lg' res (R1 & R2 & R3). cbn [ok]. split.
       { cbn [fst]. intros mm' E. inversion E; subst. split; assumption. }
       cbn [snd]. destruct R3 as [-> | ->]; split; reflexivity.
+Qed.
+
+Lemma call_prog_ok : forall attempts hh o m, omh hh m ->
+  ok (lg_init o m) (call_prog attempts hh o m) (Qcall hh o).
+Proof.
+  intros attempts hh o m Hmh.
+  eapply ok_conseq; [apply ok_leaves; [apply call_prog_ok0; exact Hmh|apply leaves_call_prog_mh; exact Hmh]|].
+  cbn beta. intros lg' res ((Q1 & Q2 & Q3) & Q4). exact (conj Q1 (conj Q2 (conj Q3 Q4))).
 Qed.
 
 (* ------------------------------------------------------------------ *)
@@ -1243,7 +1480,9 @@ Record GI (γ : ghost) (s : fs) : Prop := {
   g_ranges : ranges_increasing None (map (fun n => info (G γ n)) (listed_fs s)) = true;
   g_seen : forall n, In n (listed_fs s) -> seen γ n;
   g_seen_lt : forall n, seen γ n -> n < f_next_tab s;
-  g_tmps : forall t h, lookup t (f_tmps s) = Some h -> t < f_next_tmp s }.
+  g_tmps : forall t h, lookup t (f_tmps s) = Some h -> t < f_next_tmp s;
+  (* the listed tables share one hash type *)
+  g_hash : exists hsh, forall n, In n (listed_fs s) -> tf_hash (G γ n) = hsh }.
 
 Record interp (γ : ghost) (s : fs) (h : nat) (lg : lgh) : Prop := {
   i_lk : lk lg = true -> f_lock s = Some h;
@@ -1481,17 +1720,17 @@ Proof.
   split; [exact P|]. split; [exact Q|]. intro Eb. apply R. auto.
 Qed.
 
-Lemma sp_rename : forall so h γ s lg t mn mx txs hh,
+Lemma sp_rename : forall so h γ s lg t mn mx txs hsh hh,
   GI γ s -> interp γ s h lg -> lk lg = true -> tm lg = Some (t, true) ->
   lookup t (f_tmps s) = Some hh ->
   let n := f_next_tab s in
-  let f := {| tf_min := mn; tf_max := mx; tf_txs := txs; tf_size := so n |} in
+  let f := {| tf_min := mn; tf_max := mx; tf_txs := txs; tf_size := so n; tf_hash := hsh |} in
   let s' := {| f_list := f_list s; f_lock := f_lock s; f_tabs := f_tabs s ++ [(n, f)]; f_tlocks := f_tlocks s;
                f_tmps := del t (f_tmps s); f_next_tab := S n; f_next_tmp := f_next_tmp s |} in
   let γ' := mkG (fun x => if Nat.eqb x n then f else G γ x) (seen γ) in
-  step_post h γ s lg (QRenameTmp t mn mx txs) γ' s' (SNew n f) FOk.
+  step_post h γ s lg (QRenameTmp t mn mx txs hsh) γ' s' (SNew n f) FOk.
 Proof.
-  intros so h γ s lg t mn mx txs hh HG HI Hlk Htm Hlook n f s' γ'.
+  intros so h γ s lg t mn mx txs hsh hh HG HI Hlk Htm Hlook n f s' γ'.
   assert (Hhh : hh = h) by (destruct (i_tm HI _ _ Htm) as (_ & X & _); apply X; exact Hlook). subst hh.
   assert (Hnone : lookup n (f_tabs s) = None).
   { destruct (lookup n (f_tabs s)) eqn:E; [|reflexivity]. apply (g_tabs HG) in E. unfold n in E. lia. }
@@ -1512,7 +1751,9 @@ Proof.
     - rewrite <- g_ranges0. f_equal. apply map_ext_in. intros x Hx.
       destruct (Nat.eqb_spec x n); [|reflexivity]. apply g_seen0 in Hx. apply Hlt in Hx. lia.
     - intros x Hx. apply Hlt in Hx. lia.
-    - intros t' h' E. rewrite lookup_del in E. destruct (Nat.eqb t' t); [discriminate|eauto]. }
+    - intros t' h' E. rewrite lookup_del in E. destruct (Nat.eqb t' t); [discriminate|eauto].
+    - destruct g_hash0 as [hs0 Hhs]. exists hs0. intros x Hx.
+      destruct (Nat.eqb_spec x n); [|apply Hhs; exact Hx]. apply g_seen0 in Hx. apply Hlt in Hx. lia. }
   assert (KL : forall h', keepsL h' γ s γ' s').
   { intros h' E. cbn. split; [exact E|]. split; [reflexivity|]. split; [auto|].
     intros x g _ X. rewrite lookup_app, X. reflexivity. }
@@ -1587,10 +1828,11 @@ Lemma commit_sem : forall h γ s lg names,
     NoDup news /\ (forall x, In x news <-> In x (fr lg)) /\ vw lg = Some (listed_fs s) /\
     ranges_increasing None (map (fun x => info (G γ x)) names) = true /\
     flat_map (fun x => tf_txs (G γ x)) names =
-      txs_of γ s ++ (match pd lg with Some tx => [tx] | None => [] end).
+      txs_of γ s ++ (match pd lg with Some tx => [tx] | None => [] end) /\
+    exists hsh, forall x, In x names -> tf_hash (G γ x) = hsh.
 Proof.
   intros h γ s lg names HG HI [H|[H|H]].
-  - destruct H as (tx & m & n & f & Hpd & Hvw & Hm & Hfr & Hnf & Fmin & Fmax & Ftx & ->).
+  - destruct H as (tx & m & n & f & Hpd & Hvw & Hm & Hfr & Hnf & Fmin & Fmax & Ftx & Fh & ->).
     destruct (i_vw HI _ Hvw) as [Hlock Hl].
     assert (HGm : forall x g, In (x, g) m -> G γ x = g) by (intros x g Hx; apply (i_kn HI); apply Hm; exact Hx).
     assert (HGn : G γ n = f) by (apply (i_kn HI); exact Hnf).
@@ -1606,8 +1848,11 @@ Proof.
         -- rewrite lastmax_mem by discriminate. cbn [ranges_increasing info ti_min ti_max].
            rewrite Fmin, Fmax. cbn [next_index]. rewrite N.leb_refl. cbn [andb]. rewrite andb_true_r.
            apply N.ltb_lt. lia.
-    + rewrite flat_map_app. unfold txs_of. rewrite Hl. f_equal. cbn. rewrite HGn, Ftx, Hpd. reflexivity.
-  - destruct H as (sub & pre & post & n & f & Hpd & Hvw & Hsub & Hne & Hfr & Hnf & Fmin & Fmax & Ftx & ->).
+    + split; [rewrite flat_map_app; unfold txs_of; rewrite Hl; f_equal; cbn; rewrite HGn, Ftx, Hpd; reflexivity|].
+      exists (tf_hash f). intros x Hx. apply in_app_or in Hx as [Hx|[<-|[]]]; [|rewrite HGn; reflexivity].
+      unfold mnames in Hx. apply in_map_iff in Hx as [[x' g] [E Hx]]. cbn [fst] in E. subst x'.
+      rewrite (HGm x g Hx). apply (Fh (x, g) Hx).
+  - destruct H as (sub & pre & post & n & f & Hpd & Hvw & Hsub & Hne & Hfr & Hnf & Fmin & Fmax & Ftx & Fh & ->).
     destruct (i_vw HI _ Hvw) as [Hlock Hl].
     assert (HGm : forall x g, In (x, g) sub -> G γ x = g) by (intros x g Hx; apply (i_kn HI); apply Hsub; exact Hx).
     assert (HGn : G γ n = f) by (apply (i_kn HI); exact Hnf).
@@ -1624,11 +1869,23 @@ Proof.
           with (map (fun x0 => info (G γ x0)) (mnames ((a, g) :: sub'))).
         rewrite (map_G_mem γ info _ HGm). rewrite lastmax_mem by discriminate.
         cbn [map info ti_max]. rewrite HGn, Fmax. reflexivity.
-    + unfold txs_of. rewrite Hl, Hpd, app_nil_r. rewrite !flat_map_app. f_equal. f_equal.
-      cbn [flat_map]. rewrite app_nil_r, HGn, Ftx.
-      rewrite !flat_map_concat_map. f_equal. symmetry. apply (map_G_mem γ (@tf_txs) sub HGm).
+    + split.
+      { unfold txs_of. rewrite Hl, Hpd, app_nil_r. rewrite !flat_map_app. f_equal. f_equal.
+        cbn [flat_map]. rewrite app_nil_r, HGn, Ftx.
+        rewrite !flat_map_concat_map. f_equal. symmetry. apply (map_G_mem γ (@tf_txs) sub HGm). }
+      (* the replaced tables are listed and of the new table's hash type: so is the whole list *)
+      exists (tf_hash f). destruct (g_hash HG) as [hs0 Hhs].
+      destruct sub as [|[a g] sub']; [congruence|].
+      assert (Ea : hs0 = tf_hash f).
+      { rewrite <- (Hhs a).
+        - rewrite (HGm a g (or_introl eq_refl)). apply (Fh (a, g)). left. reflexivity.
+        - rewrite Hl. apply in_or_app. right. apply in_or_app. left. left. reflexivity. }
+      intros x Hx. apply in_app_or in Hx as [Hx|Hx].
+      * rewrite <- Ea. apply Hhs. rewrite Hl. apply in_or_app. left. exact Hx.
+      * apply in_app_or in Hx as [[<-|[]]|Hx]; [rewrite HGn; reflexivity|].
+        rewrite <- Ea. apply Hhs. rewrite Hl. apply in_or_app. right. apply in_or_app. right. exact Hx.
   - destruct H as (tx & m & n1 & f1 & n2 & f2 & Hpd & Hvw & Hm & Hfr & Hne & Hnf1 & Hnf2 &
-                   Fmin1 & Fmax1 & Ftx1 & Fmin2 & Fmax2 & Ftx2 & ->).
+                   Fmin1 & Fmax1 & Ftx1 & Fmin2 & Fmax2 & Ftx2 & Fh1 & Fh2 & ->).
     destruct (i_vw HI _ Hvw) as [Hlock Hl].
     assert (HGm : forall x g, In (x, g) m -> G γ x = g) by (intros x g Hx; apply (i_kn HI); apply Hm; exact Hx).
     assert (HGn1 : G γ n1 = f1) by (apply (i_kn HI); exact Hnf1).
@@ -1649,7 +1906,11 @@ Proof.
         -- rewrite lastmax_mem by discriminate. cbn [ranges_increasing info ti_min ti_max].
            rewrite Fmin1, Fmax1, Fmin2, Fmax2. cbn [next_index]. rewrite !N.leb_refl. cbn [andb]. rewrite andb_true_r.
            apply andb_true_iff. split; apply N.ltb_lt; lia.
-    + rewrite flat_map_app. unfold txs_of. rewrite Hl. f_equal. cbn. rewrite HGn1, HGn2, Ftx1, Ftx2, Hpd. reflexivity.
+    + split; [rewrite flat_map_app; unfold txs_of; rewrite Hl; f_equal; cbn; rewrite HGn1, HGn2, Ftx1, Ftx2, Hpd; reflexivity|].
+      exists (tf_hash f1). intros x Hx.
+      apply in_app_or in Hx as [Hx|[<-|[<-|[]]]]; [|rewrite HGn1; reflexivity|rewrite HGn2; exact Fh2].
+      unfold mnames in Hx. apply in_map_iff in Hx as [[x' g] [E Hx]]. cbn [fst] in E. subst x'.
+      rewrite (HGm x g Hx). apply (Fh1 (x, g) Hx).
 Qed.
 
 Lemma sp_commit_case : forall h γ s lg names,
@@ -1660,7 +1921,7 @@ Lemma sp_commit_case : forall h γ s lg names,
        f_tmps := f_tmps s; f_next_tab := f_next_tab s; f_next_tmp := f_next_tmp s |} SOk FOk.
 Proof.
   intros h γ s lg names HG HI Hal.
-  destruct (commit_sem HG HI Hal) as (pre & run & news & post & Hl & Hnames & Hlock & Hndn & Hnews & Hvw & Hri & Htx).
+  destruct (commit_sem HG HI Hal) as (pre & run & news & post & Hl & Hnames & Hlock & Hndn & Hnews & Hvw & Hri & Htx & Hhsh).
   split; [exact Hlock|].
   assert (Hfrx : forall x, In x news -> ~ seen γ x /\ lookup x (f_tabs s) = Some (G γ x)).
   { intros x Hx. apply Hnews in Hx. destruct (i_fr HI _ Hx) as (_ & A & B). split; assumption. }
@@ -1689,7 +1950,8 @@ Proof.
     - intros x Hx. destruct (Hsub x Hx) as [X|X]; [left; apply (g_seen HG); exact X|right; exact X].
     - intros x [X|X]; [apply (g_seen_lt HG); exact X|].
       pose proof (proj2 (Hfrx x X)) as Y. apply (g_tabs HG) in Y. apply Y.
-    - apply (g_tmps HG). }
+    - apply (g_tmps HG).
+    - exact Hhsh. }
   assert (HF : frame γ s γ' s').
   { constructor; unfold s', γ', listed_fs; cbn [f_list f_tabs f_tmps f_next_tab f_next_tmp G seen]; auto.
     intros x Hx Hnx X. destruct (Hsub x X) as [Y|Y]; [apply Hnx; exact Y|].
@@ -1733,7 +1995,7 @@ Lemma req_step : forall so c h q γ s lg s' rs fr,
   exists γ', step_post h γ s lg q γ' s' rs fr.
 Proof.
   intros so c h q γ s lg s' rs fr HG HI Hal H.
-  destruct q as [p| |n|t| |t mn mx txs|names|p|cands|cands| ]; cbn [apply_req] in H.
+  destruct q as [p| |n|t| |t mn mx txs hsh|names|p|cands|cands| ]; cbn [apply_req] in H.
   - (* QCreateExcl *)
     destruct p as [| |n|n|t| |]; try (inversion H; subst; same_tac γ HG HI).
     + destruct (f_lock s) as [o|] eqn:El; inversion H; subst; [same_tac γ HG HI|].
@@ -1935,13 +2197,24 @@ Proof.
   destruct Hin as [->|Hin]; [congruence|apply IH; exact Hin].
 Qed.
 
+Lemma stack_hash_ok : forall γ s n hsh, GI γ s -> In n (listed_fs s) -> stack_hash s = Some hsh ->
+  tf_hash (G γ n) = hsh.
+Proof.
+  intros γ s n hsh HG Hin H. unfold stack_hash in H. destruct (g_hash HG) as [hs0 Hhs].
+  unfold listed_fs in *. destruct (f_list s) as [[|n0 l]|]; try discriminate H.
+  destruct (lookup n0 (f_tabs s)) as [f0|] eqn:E0; [|discriminate H]. inversion H; subst hsh.
+  destruct (g_tabs HG n0 f0 E0) as [_ <-]. rewrite (Hhs n Hin). symmetry. apply Hhs. left. reflexivity.
+Qed.
+
 Lemma snap_lookup : forall γ s n, GI γ s -> In n (listed_fs s) ->
   lookup_tab n (sn_tabs (snapshot_of s)) = Some (TGood (info (G γ n))).
 Proof.
   intros γ s n HG Hin. cbn [snapshot_of sn_tabs]. fold (listed_fs s).
   rewrite lookup_tab_map by exact Hin.
   pose proof (g_exist HG n Hin) as He. destruct (lookup n (f_tabs s)) as [f|] eqn:E; [|congruence].
-  destruct (g_tabs HG n f E) as [_ <-]. reflexivity.
+  destruct (g_tabs HG n f E) as [_ <-].
+  destruct (stack_hash s) as [hsh|] eqn:Eh; [|reflexivity].
+  rewrite (@stack_hash_ok _ _ _ _ HG Hin Eh), eqb_reflx. reflexivity.
 Qed.
 
 Lemma list_ok_snapshot : forall γ s, GI γ s -> list_ok (snapshot_of s) = true.
@@ -2060,10 +2333,11 @@ Qed.
 
 Definition hinv (γ : ghost) (s : fs) (st : c04_state) (i : nat) (hd : handle) : Prop :=
   (forall m, h_mem hd = Some m -> memok γ m) /\
+  omh (h_hash hd) (h_mem hd) /\
   match h_pc hd with
   | HDead => True
   | HIdle => assoc i (c4_pending st) = None /\ assoc i (c4_done st) = None
-  | HRun o p => exists lg, interp γ s i lg /\ ok lg p (Qcall o) /\
+  | HRun o p => exists lg, interp γ s i lg /\ ok lg p (Qcall (h_hash hd) o) /\
                   assoc i (c4_pending st) = pd lg /\ assoc i (c4_done st) = dn lg
   end.
 
@@ -2089,7 +2363,7 @@ Lemma hinv_other : forall γ s st γ' s' st' i hd,
   assoc i (c4_pending st') = assoc i (c4_pending st) -> assoc i (c4_done st') = assoc i (c4_done st) ->
   hinv γ s st i hd -> hinv γ' s' st' i hd.
 Proof.
-  intros γ s st γ' s' st' i hd HG HF KL KT Ep Ed (B & C). split.
+  intros γ s st γ' s' st' i hd HG HF KL KT Ep Ed (B & Bh & C). split; [|split; [exact Bh|]].
   - intros m E. eapply memok_stable; eauto.
   - destruct (h_pc hd); auto.
     + rewrite Ep, Ed. exact C.
@@ -2116,16 +2390,16 @@ Lemma keepsT_refl : forall i s, keepsT i s s.
 Proof. intros i s t E. exact E. Qed.
 
 (* the end of a call *)
-Lemma finish_inv : forall γ fs st hs h o m r lg script,
+Lemma finish_inv : forall γ fs st hs h o m r lg script hh,
   GI γ fs -> c4_commits st = txs_of γ fs ->
   (forall i hd, i <> h -> nth_error hs i = Some hd -> hinv γ fs st i hd) ->
-  interp γ fs h lg -> Qcall o lg (m, r) -> assoc h (c4_done st) = dn lg ->
-  WInv γ {| w_fs := fs; w_handles := set_handle h {| h_mem := m; h_pc := HIdle; h_script := script |} hs |}
+  interp γ fs h lg -> Qcall hh o lg (m, r) -> assoc h (c4_done st) = dn lg ->
+  WInv γ {| w_fs := fs; w_handles := set_handle h {| h_mem := m; h_pc := HIdle; h_script := script; h_hash := hh |} hs |}
        (st_ret h st) /\
   (forall rest, c04_loop false st (finish_events h o m r ++ rest) = c04_loop false (st_ret h st) rest) /\
   (forall cur rest, c05_loop cur (finish_events h o m r ++ rest) = c05_loop cur rest).
 Proof.
-  intros γ fs st hs h o m r lg script HG Hc Ho HI (Q1 & Q2 & Q3) Hd. cbn [fst snd] in *.
+  intros γ fs st hs h o m r lg script hh HG Hc Ho HI (Q1 & Q2 & Q3 & Q4) Hd. cbn [fst snd] in *.
   split; [|split].
   - apply winv_set; auto.
     + intros i hd Hne E. apply hinv_other with (γ := γ) (s := fs) (st := st); auto.
@@ -2138,7 +2412,7 @@ Proof.
       * cbn [h_mem]. intros mm E. destruct (Q1 mm E) as [A B]. intros n f Hin. split.
         -- apply (i_kn HI). apply A. exact Hin.
         -- apply (i_sn HI). apply B. unfold mnames. apply in_map_iff. exists (n, f). split; [reflexivity|exact Hin].
-      * cbn. split; apply assoc_unassoc_eq.
+      * split; [exact Q4|]. cbn. split; apply assoc_unassoc_eq.
   - intros rest. apply c04_finish; [exact Q2|]. rewrite Hd. exact Q3.
   - intros cur rest. apply c05_finish.
 Qed.
@@ -2191,13 +2465,13 @@ Proof.
               (forall rest, c05_loop (snapshot_of (w_fs w)) (evs ++ rest) = c05_loop (snapshot_of (w_fs w')) rest)).
   { intro E. inversion E; subst. exists γ, st. split; [split; [exact HG|split; assumption]|]. split; reflexivity. }
   destruct (nth_error (w_handles w) h) as [hd|] eqn:En; [|apply Hnop; congruence].
-  destruct (Hh h hd En) as (Hmem & Hpc).
+  destruct (Hh h hd En) as (Hmem & Hmh & Hpc).
   assert (Hothers : forall i hd', i <> h -> nth_error (w_handles w) i = Some hd' -> hinv γ (w_fs w) st i hd')
     by (intros i hd' _ E; apply Hh; exact E).
   destruct (h_pc hd) as [|o p|] eqn:Epc; [| |apply Hnop; congruence].
   - (* a call starts *)
     destruct (h_script hd) as [|o rest] eqn:Es; [apply Hnop; congruence|].
-    pose proof (@call_prog_ok att o (h_mem hd)) as Hok.
+    pose proof (@call_prog_ok att (h_hash hd) o (h_mem hd) Hmh) as Hok.
     pose proof (@interp_init γ (w_fs w) h o (h_mem hd) HG Hmem) as HI.
     destruct Hpc as [Hp0 Hd0].
     set (st1 := st_call h o st).
@@ -2212,9 +2486,9 @@ Proof.
       - apply frame_refl.
       - apply keepsL_refl.
       - apply keepsT_refl. }
-    destruct (call_prog att o (h_mem hd)) as [[m r]|q k] eqn:Ecp.
+    destruct (call_prog att (h_hash hd) o (h_mem hd)) as [[m r]|q k] eqn:Ecp.
     + inversion H; subst w' evs. clear H.
-      destruct (@finish_inv γ (w_fs w) st1 (w_handles w) h o m r _ rest HG Hc1 Ho1 HI Hok Hd1)
+      destruct (@finish_inv γ (w_fs w) st1 (w_handles w) h o m r _ rest (h_hash hd) HG Hc1 Ho1 HI Hok Hd1)
         as (W & C4 & C5).
       exists γ, (st_ret h st1). split; [exact W|]. split.
       * intros rest'. cbn [app]. rewrite c04_call. apply C4.
@@ -2222,14 +2496,14 @@ Proof.
     + inversion H; subst w' evs. clear H.
       exists γ, st1. split; [|split; [intros; cbn [app]; apply c04_call|reflexivity]].
       apply winv_set; auto.
-      split; [exact Hmem|]. cbn [h_pc].
+      split; [exact Hmem|]. split; [exact Hmh|]. cbn [h_pc h_hash].
       exists (lg_init o (h_mem hd)). auto.
   - (* inside a call *)
     destruct Hpc as (lg & HI & Hok & Hp0 & Hd0).
     destruct p as [[m r]|q k].
     + (* the call returns *)
       inversion H; subst w' evs. clear H.
-      destruct (@finish_inv γ (w_fs w) st (w_handles w) h o m r lg (h_script hd) HG Hc Hothers HI Hok Hd0)
+      destruct (@finish_inv γ (w_fs w) st (w_handles w) h o m r lg (h_script hd) (h_hash hd) HG Hc Hothers HI Hok Hd0)
         as (W & C4 & C5).
       exists γ, (st_ret h st). split; [exact W|]. split; [exact C4|]. intros; apply C5.
     + (* one file-system operation *)
@@ -2269,7 +2543,7 @@ Proof.
         intros n A B. eapply (sp_rm SP); eauto. }
       destruct (k rs) as [[m r]|q' k'] eqn:Ek.
       * inversion H; subst w' evs. clear H. cbn [ok] in Hk.
-        destruct (@finish_inv γ' s' st1 (w_handles w) h o m r _ (h_script hd) (sp_GI SP) Hc1 Ho1 (sp_interp SP) Hk Hd1)
+        destruct (@finish_inv γ' s' st1 (w_handles w) h o m r _ (h_script hd) (h_hash hd) (sp_GI SP) Hc1 Ho1 (sp_interp SP) Hk Hd1)
           as (W & C4 & C5).
         exists γ', (st_ret h st1). split; [exact W|]. split.
         -- intros rest. cbn [app]. rewrite E4. apply C4.
@@ -2280,7 +2554,7 @@ Proof.
         -- apply (sp_GI SP).
         -- split.
            ++ cbn [h_mem]. intros mm E. eapply memok_stable; [exact HG|apply (sp_frame SP)|]. apply Hmem. exact E.
-           ++ cbn [h_pc]. exists (nxt lg q rs). split; [apply (sp_interp SP)|]. auto.
+           ++ split; [exact Hmh|]. cbn [h_pc h_hash]. exists (nxt lg q rs). split; [apply (sp_interp SP)|]. auto.
 Qed.
 
 Lemma crash_inv : forall γ w st h w' evs,
@@ -2293,7 +2567,7 @@ Proof.
   destruct (nth_error (w_handles w) h) as [hd|] eqn:En.
   - inversion H; subst w' evs. clear H. split; [|split].
     + apply winv_set; auto.
-      destruct (Hh h hd En) as (Hmem & _). split; [exact Hmem|exact I].
+      destruct (Hh h hd En) as (Hmem & Hmh & _). split; [exact Hmem|]. split; [exact Hmh|exact I].
     + intros rest. cbn [app c04_loop]. destruct st; reflexivity.
     + intros rest. reflexivity.
   - inversion H; subst w' evs. split; [split; [exact HG|split; assumption]|]. split; reflexivity.
@@ -2325,9 +2599,11 @@ Qed.
 Definition init_ok (tabs : list (nat * tfile)) : Prop :=
   map fst tabs = seq 0 (length tabs) /\
   ranges_increasing None (map (fun x => {| ti_min := tf_min (snd x); ti_max := tf_max (snd x);
-                                           ti_txs := tf_txs (snd x) |}) tabs) = true.
+                                           ti_txs := tf_txs (snd x) |}) tabs) = true /\
+  (* the initial tables are of one hash type *)
+  (exists hsh, forall x, In x tabs -> tf_hash (snd x) = hsh).
 
-Definition tfile0 : tfile := {| tf_min := 0; tf_max := 0; tf_txs := []; tf_size := 0 |}.
+Definition tfile0 : tfile := {| tf_min := 0; tf_max := 0; tf_txs := []; tf_size := 0; tf_hash := false |}.
 
 Definition ghost0 (tabs : list (nat * tfile)) : ghost :=
   mkG (fun n => match lookup n tabs with Some f => f | None => tfile0 end) (fun n => In n (map fst tabs)).
@@ -2337,7 +2613,7 @@ Proof. intros [|x tabs]; reflexivity. Qed.
 
 Lemma GI_init : forall tabs, init_ok tabs -> GI (ghost0 tabs) (init_fs tabs).
 Proof.
-  intros tabs [Hk Hr].
+  intros tabs (Hk & Hr & Hh).
   assert (Hnd : NoDup (map fst tabs)) by (rewrite Hk; apply seq_NoDup).
   assert (Hlt : forall n, In n (map fst tabs) -> n < length tabs).
   { intros n Hn. rewrite Hk in Hn. apply in_seq in Hn. lia. }
@@ -2352,6 +2628,9 @@ Proof.
   - auto.
   - exact Hlt.
   - intros t h E. discriminate.
+  - destruct Hh as [hsh Hh]. exists hsh. intros n Hn.
+    apply in_map_iff in Hn as [[n' f] [E Hin]]. cbn in E. subst n'.
+    rewrite (@lookup_nodup _ tabs n f Hnd Hin). apply (Hh (n, f) Hin).
 Qed.
 
 Definition st_init (tabs : list (nat * tfile)) : c04_state :=
@@ -2365,7 +2644,7 @@ Proof.
   split; [exact HG|]. split; [apply (snap_txs_snapshot HG)|].
   cbn [init_world w_handles w_fs]. intros i hd E. apply nth_error_In in E.
   apply in_map_iff in E as [s [<- Hin]].
-  split; [cbn; intros; discriminate|]. cbn. auto.
+  split; [cbn; intros; discriminate|]. split; [intros mm E; discriminate E|]. cbn. auto.
 Qed.
 
 (* ------------------------------------------------------------------ *)
@@ -2404,7 +2683,7 @@ Proof.
                  f_tlocks := tl; f_tmps := f_tmps s; f_next_tab := f_next_tab s; f_next_tmp := f_next_tmp s |}).
   { intros. repeat split; cbn; auto. }
   assert (Hs : keys_ok s) by (repeat split; auto).
-  destruct q as [p| |n|t| |t mn mx txs|names|p|cands|cands| ]; cbn [apply_req] in H.
+  destruct q as [p| |n|t| |t mn mx txs hsh|names|p|cands|cands| ]; cbn [apply_req] in H.
   - destruct p; try (inversion H; subst; exact Hs).
     + destruct (f_lock s); inversion H; subst; [exact Hs|apply Hsame].
     + destruct (lookup n (f_tlocks s)); inversion H; subst; [exact Hs|apply Hsame].
